@@ -33,6 +33,9 @@ type C10Case struct {
 	Until       int64      `json:"until"`
 	ArchiveID   int        `json:"archive_id"`
 	ShowHeader  bool       `json:"show_header"`
+	// Again > 0: after the first run every file gets a point at now + Again and the SAME command value is
+	// executed once more at that later clock (a program that reuses one command for periodic runs)
+	Again int64 `json:"again,omitempty"`
 }
 
 func buildTree(base string, files []TreeFile, now int64) error {
@@ -239,8 +242,20 @@ func runC10(c C10Case, ev *Evid) (fs []Finding) {
 	}
 	out := filepath.Join(dir, "sum.txt")
 	sc := &cmd.SumCommand{SrcBase: base, ItemPattern: c.ItemPattern, SrcPattern: c.SrcPattern, From: wt.Timestamp(c.From), Until: wt.Timestamp(c.Until), ArchiveID: c.ArchiveID, TextOut: out, ShowHeader: c.ShowHeader}
-	err, pm := runCommand(now, sc)
+	var err error
+	var pm string
+	again := false
+	if c.Again > 0 {
+		// (the very object is executed, not a copy made for respelling / flag parsing)
+		pm = atClock(now, func() { err = sc.Execute() })
+	} else {
+		err, pm = runCommand(now, sc)
+	}
+judge:
 	desc := fmt.Sprintf("sum now=%d item=%q src=%q from=%d until=%d archive=%d", now, c.ItemPattern, c.SrcPattern, c.From, c.Until, c.ArchiveID)
+	if again {
+		desc = "(same command value executed again " + fmt.Sprint(c.Again) + " s later) " + desc
+	}
 	if pm != "" {
 		add("sum-panic", "%s: panicked: %s", desc, pm)
 		return
@@ -354,6 +369,31 @@ func runC10(c C10Case, ev *Evid) (fs []Finding) {
 	}
 	if c.ArchiveID >= 0 {
 		cls = append(cls, "single-archive")
+	}
+	if c.Again > 0 && !again && err == nil {
+		again = true
+		now += c.Again
+		until = effUntil(c.Until, now)
+		for i, f := range c.Files {
+			if lm[filepath.Join(base, f.Dir, f.Name)].String() != c.Files[0].Spec.L.String() {
+				continue
+			}
+			if e := modifyFile(filepath.Join(base, f.Dir, f.Name), []SlotWrite{{Arch: 0, T: now, V: F64(float64(i) + 0.5)}}, now); e != nil {
+				add("setup", "second run: %v", e)
+				return
+			}
+		}
+		out = filepath.Join(dir, "sum2.txt")
+		sc.TextOut = out
+		pm = atClock(now, func() { err = sc.Execute() })
+		if pm != "" {
+			add("sum-panic", "second run: panicked: %s", pm)
+			return
+		}
+		goto judge
+	}
+	if again {
+		cls = append(cls, "same-command-executed-again-later")
 	}
 	ev.Count(HashJSON(c), nontrivial, cls...)
 	if nontrivial && ev.WantSample() && len(c.Files) <= 3 {
@@ -496,6 +536,9 @@ func genC10(t *rapid.T) C10Case {
 		c.ArchiveID = rapid.IntRange(0, len(l.Archives)-1).Draw(t, "archive")
 	}
 	c.ShowHeader = rapid.Bool().Draw(t, "header")
+	if c.Until == 0 && len(c.Files) <= 8 && rapid.IntRange(0, 5).Draw(t, "again") == 0 {
+		c.Again = rapid.Int64Range(1, 2*l.Archives[0].Step+1).Draw(t, "againAfter")
+	}
 	return c
 }
 
